@@ -22,7 +22,7 @@ type Options struct {
 	Deadline    time.Time
 	SolverKind  string
 	TimeoutMs   int
-	OrderPolicy int // 0 ascending, 1 descending, 2 rotate-by-one
+	OrderPolicy int // 0 ascending, 1 descending, 2 rotate-by-one, 3 rotate-by-two, 4 adjacent pairs swapped, 5 tail reversed (0..5 = all six orders of a three-key map)
 	MaxViol     int
 	SampleEvery int
 	LabelPrefixes []string // nil/empty = all labels checked
@@ -1164,6 +1164,18 @@ func (r *Run) applyOrderPolicy(instr *ssa.Range, it *mapIter) {
 	case 2:
 		if len(it.keys) > 1 {
 			it.keys = append(it.keys[1:], it.keys[0])
+		}
+	case 3: // rotate by two
+		if n := len(it.keys); n > 2 {
+			it.keys = append(it.keys[2:], it.keys[0], it.keys[1])
+		}
+	case 4: // swap adjacent pairs
+		for i := 0; i+1 < len(it.keys); i += 2 {
+			it.keys[i], it.keys[i+1] = it.keys[i+1], it.keys[i]
+		}
+	case 5: // first key stays, the rest reversed
+		for i, j := 1, len(it.keys)-1; i < j; i, j = i+1, j-1 {
+			it.keys[i], it.keys[j] = it.keys[j], it.keys[i]
 		}
 	}
 }
